@@ -25,6 +25,9 @@ def run(ctx):
     _roles.rule_A_NAMES(ctx, modules=('enum_narsese::',))
     import lskel as _lskel
     _lskel.rule_L_SKELETON(ctx, which=('term',), floor=10)
+    # "the same description built another way compares equal": the fold is the other way of building a term (seed c06-p: the fold's copula
+    # table maps `<|>` to the predictive constructor, so folded <A <|> B> is ordered)
+    _lskel.rule_L_SKELETON(ctx, which=('fold',), floor=8)
     ctx.undecided = ["nothing value-dependent beyond the induction over nesting depth; std HashSet::eq is trusted to implement set equality "
                      "given a Hash consistent with Eq (which the H-* premises establish)"]
     ctx.assumptions = ["std HashSet<T>::eq = same length and every element of one contained in the other", "String/usize equality is the identity relation"]
